@@ -226,7 +226,7 @@ impl Check for C08 {
     }
     fn cases(&self, tier: Tier) -> u64 {
         match tier {
-            Tier::Quick => 480,
+            Tier::Quick => 900,
             Tier::Thorough => 12000,
         }
     }
@@ -259,6 +259,11 @@ impl Check for C08 {
         gp.serde_attrs = (i / 8) % 2 == 0;
         let model = gen_model(&mut r.split("model"), &gp);
         let mut cfg = super::c14::gen_cfg(&mut r.split("cfg"), &setup);
+        // the dependency report is the most sensitive output (paths, line numbers, raw Rust
+        // types): a third of the histories have it switched on from the start
+        if (i / setups.len() as u64) % 3 == 1 && !cfg.flag_visualize {
+            cfg.visualize = true;
+        }
         // stratify the mode: every class meets both generators
         cfg.mode = if (i / 16) % 2 == 0 { "zod".into() } else { "none".into() };
         let mut sr = r.split("steps");
